@@ -27,9 +27,10 @@ CONSTANTS
 PROPERTY QueriesAreSideEffectFree
 PROPERTY StoreOnlyGrows
 PROPERTY SetEasyIsLocal
+PROPERTY AssignmentsAreLocal
 CHECK_DEADLOCK FALSE
 """
-TIERS = {"quick": dict(MaxCalls=1, nsim=60, depth=9), "thorough": dict(MaxCalls=2, nsim=600, depth=14)}
+TIERS = {"quick": dict(MaxCalls=1, nsim=100, depth=10), "thorough": dict(MaxCalls=2, nsim=800, depth=14)}
 ALIAS = {"tpr": "tar", "fnr": "frr", "tnr": "trr", "fpr": "far", "topr": "acceptance_rate",
          "tonr": "rejection_rate", "tar": "tpr", "frr": "fnr", "trr": "tnr", "far": "fpr",
          "acceptance_rate": "topr", "rejection_rate": "tonr", "cm": "confusion_matrix"}
@@ -176,6 +177,10 @@ def steps_of(beh):
             out.append(["SwapCall", last["h"], "", [], []])
         elif last["op"] == "set_easy":
             out.append(["SetEasy", last["h"], "", [], [int(x) for x in last["arg"]]])
+        elif last["op"] == "set_config":
+            out.append(["SetConfig", last["h"], "", [], [str(x) for x in last["arg"]]])
+        elif last["op"] == "set_scores":
+            out.append(["SetScores", last["h"], "", [], [str(last["arg"][0]), [int(x) for x in last["arg"][1]]]])
         else:
             out.append(["Query", last["h"], last["op"], list(last["shape"]),
                         [list(a) if isinstance(a, tuple) else a for a in last["arg"]]])
@@ -220,6 +225,32 @@ def replay_behaviour(o0, steps_in, cid, ids, seed):
                 e["exc"] = sd.exc_str(ex)
                 break
             steps.append(["SetEasy", h, ep, en])
+        elif act == "SetConfig":
+            from score_analysis.scores import BinaryLabel
+            h, (sc, ec) = h_, arg_
+            e = ev("SetConfig", h=h, sc=sc, ec=ec, as_string=bool((cid + k) % 2), post=dict(sd.EMPTY_POST))
+            try:
+                if (cid + k) % 2:          # plain strings (the label type compares equal to them) ...
+                    real[h - 1].score_class, real[h - 1].equal_class = sc, ec
+                else:                      # ... or enum members
+                    real[h - 1].score_class, real[h - 1].equal_class = BinaryLabel(sc), BinaryLabel(ec)
+                objs[h - 1] = dict(objs[h - 1], sc=sc, ec=ec)
+                e["post"] = sd.alpha_obj(real[h - 1], sd.inv_map(g))
+            except Exception as ex:  # noqa
+                e["exc"] = sd.exc_str(ex)
+                break
+            steps.append(["SetConfig", h, sc, ec])
+        elif act == "SetScores":
+            h, (cls_, seq) = h_, arg_
+            e = ev("SetScores", h=h, cls=cls_, seq=list(seq), post=dict(sd.EMPTY_POST))
+            try:
+                setattr(real[h - 1], cls_, g.arr(seq))
+                objs[h - 1] = dict(objs[h - 1], **{cls_: list(seq)})
+                e["post"] = sd.alpha_obj(real[h - 1], sd.inv_map(g))
+            except Exception as ex:  # noqa
+                e["exc"] = sd.exc_str(ex)
+                break
+            steps.append(["SetScores", h, cls_, list(seq)])
         elif act == "Query":
             h, op, shape, arg = args
             method = METHODS[(cid + k) % 3]
